@@ -55,10 +55,31 @@ PROPS = {
         "assumptions": ["costs are in 1..capacity (C06 covers rejection above capacity)"],
         "explanation": "structural invariant proved over all op sequences of the policy model; model replayed step by step against the real TinyLfu",
     },
-    "STORE": {
-        "props_files": [],
-        "go_tests": ["TestVerifStore"],
-        "level": "proof",
-        "rule": "x", "trusted_base": [], "assumptions": [], "explanation": "scratch entry to exercise the store model",
-    },
 }
+
+STORE_RULE = ("random histories on the real Store driven deterministically (maintenance goroutines stopped, the harness delivers queued "
+              "events in FIFO or overtaking order, plays ticks, cached-clock refreshes and stale wheel visits): Set/SetWithTTL/Get/"
+              "loading Get/Delete/Range/Len/Stats, costs incl. 0 and above MaxSize, TTLs 1ns..2^44ns, MaxSize 1..380, doorkeeper on in a "
+              "quarter of the cases; non-trivial = case with >= 3 steps; distinct = sha1 of the recorded case")
+STORE_TB = [KERNEL, EXTRACT, HARNESS, "hooks H1 (virtual clock) and H7 (controllable Fastrand)",
+            "modelled, not verified: one logical shard map (shard choice = hash & mask is not observable sequentially); the event channel as a list "
+            "whose delivery order the harness chooses; atomic maintenance operations (an API section interleaving inside removeEntry is "
+            "covered by the stale-visit operation only); entry pool off; float32 climb amount and doorkeeper verdict are inputs",
+            "Go runtime: sync.Mutex/RBMutex as locks, channels, goroutine scheduling"]
+
+def store_prop(files, codes, tags, expl, assumptions=None):
+    return {"props_files": files, "go_tests": ["TestVerifStore"], "level": "proof", "rule": STORE_RULE,
+            "trusted_base": STORE_TB, "assumptions": assumptions or ["entry pool disabled (default configuration)"],
+            "project_codes": {"store": codes}, "monitor_tags": tags, "explanation": expl}
+
+PROPS["C01"] = store_prop(["Props/C01.v"], ["0", "1", "2", "5", "8"], ["C01"],
+    "refinement of the store model to a last-write map; API results compared step by step with the real Store")
+PROPS["C02"] = store_prop(["Props/C02.v"], ["3", "4", "6", "7", "11"], ["C02"],
+    "accounting invariant over the store model; white-box dumps (resident set, policy weights, regions) compared after every step")
+PROPS["C05"] = store_prop(["Props/C05.v"], ["3", "4", "11"], ["C05"],
+    "listener log of the model vs the real removal listener, per delivered event and per tick")
+PROPS["C06"] = store_prop(["Props/C06.v"], ["0", "1", "8", "3", "4"], ["C06"],
+    "Set/loader admission rules over the store model; Set results, immediate visibility and removal reasons compared with the real Store")
+PROPS["C16"] = store_prop(["Props/C16.v"], ["5", "6"], ["C16"],
+    "counters and views of the model vs Stats/Len/Range/EstimatedSize of the real Store")
+PROPS["STORE"] = store_prop([], ["0", "1", "2", "3", "4", "5", "6", "7", "8", "9", "10", "11"], ["C01", "C02", "C03", "C04", "C05", "C06", "C16"], "scratch")
